@@ -12,13 +12,15 @@ structure Inv0 (s : State) : Prop where
   x1 : s.bgExpired = false
   x2 : s.errBg = false
   x3 : Res.bgErr ∉ s.results
+  /-- the batcher's deferred `close(out.batchC)` has run once the batcher is gone -/
+  x4 : s.bpc = .done → s.batchCClosed = true
 
 theorem inv0_init : Inv0 init := by
   constructor <;> simp [init]
 
 theorem inv0_step {cfg : Cfg} {s s' : State} {l : Label} (hi : Inv0 s)
     (h : step good cfg s l = some s') : Inv0 s' := by
-  obtain ⟨x1, x2, x3⟩ := hi
+  obtain ⟨x1, x2, x3, x4⟩ := hi
   cases l <;> unfold_step at h <;> (repeat' split at h) <;> cases h <;>
     (constructor <;> (try dsimp only) <;> first | assumption | (simp_all; done) | grind)
 
